@@ -28,6 +28,7 @@ type recogEnv struct {
 	N       *types.Named // named int
 	G       *types.Named // a second named struct, playing an instantiated generic
 	C       *types.Named // struct{} with method M(): implements I
+	J, K    *types.Named // interfaces: J lacks M, K has M and more
 	fset    *token.FileSet
 }
 
@@ -51,6 +52,13 @@ func newRecogEnv() *recogEnv {
 	iface := types.NewInterfaceType([]*types.Func{types.NewFunc(token.NoPos, e.pkg, "M", msig)}, nil)
 	iface.Complete()
 	e.I = types.NewNamed(types.NewTypeName(token.NoPos, e.pkg, "I", nil), iface, nil)
+	// J is an interface that does not implement I; K has I's method and one more (implements I)
+	jface := types.NewInterfaceType([]*types.Func{types.NewFunc(token.NoPos, e.pkg, "Other", msig)}, nil)
+	jface.Complete()
+	e.J = types.NewNamed(types.NewTypeName(token.NoPos, e.pkg, "J", nil), jface, nil)
+	kface := types.NewInterfaceType([]*types.Func{types.NewFunc(token.NoPos, e.pkg, "M", msig), types.NewFunc(token.NoPos, e.pkg, "Extra", msig)}, nil)
+	kface.Complete()
+	e.K = types.NewNamed(types.NewTypeName(token.NoPos, e.pkg, "K", nil), kface, nil)
 	// C implements I with a value receiver
 	e.C = types.NewNamed(types.NewTypeName(token.NoPos, e.pkg, "C", nil), types.NewStruct(nil, nil), nil)
 	recv := types.NewVar(token.NoPos, e.pkg, "c", e.C)
@@ -102,6 +110,10 @@ func (e *recogEnv) ptrExpr(tag string, what int) (ast.Expr, types.Type) {
 	case 4:
 		elem = types.NewStruct([]*types.Var{types.NewField(token.NoPos, e.pkg, "A", types.Typ[types.Int], false)}, nil)
 		tyExpr = &ast.StructType{Fields: &ast.FieldList{}}
+	case 8:
+		elem, tyExpr = e.J, e.typeIdent(e.J)
+	case 9:
+		elem, tyExpr = e.K, e.typeIdent(e.K)
 	case 6:
 		elem, tyExpr = e.C, e.typeIdent(e.C)
 	case 7:
@@ -116,7 +128,7 @@ func (e *recogEnv) ptrExpr(tag string, what int) (ast.Expr, types.Type) {
 	case 0: // new(T)
 		x = &ast.CallExpr{Fun: e.ident("new", types.Universe.Lookup("new")), Args: []ast.Expr{tyExpr}}
 	case 1: // new(pkg.T)
-		if what != 0 && what != 2 && what != 3 && what != 6 {
+		if what != 0 && what != 2 && what != 3 && what != 6 && what != 8 && what != 9 {
 			vPrune()
 		}
 		other := types.NewPkgName(token.NoPos, e.pkg, "user2", e.pkg)
@@ -196,7 +208,7 @@ func H_recog_bind() {
 	var args []ast.Expr
 	whats := make([]int, n)
 	for i := 0; i < n; i++ {
-		whats[i] = []int{0, 1, 2, 3, 6, 7}[vConc(vInt(fmt.Sprintf("what%d", i), 0, 5))]
+		whats[i] = []int{0, 1, 2, 3, 6, 7, 8, 9}[vConc(vInt(fmt.Sprintf("what%d", i), 0, 7))]
 		var a ast.Expr
 		if i < 2 {
 			a, _ = e.ptrExpr(fmt.Sprintf("a%d", i), whats[i])
@@ -213,9 +225,13 @@ func H_recog_bind() {
 		return
 	}
 	vCover("bind-accepted")
-	vA("C11", n == 2 && whats[0] == 2, "Bind takes exactly two arguments, the first a pointer to an interface")
-	// with bindToUsePointer the second argument new(C) / new(*C) denotes C / *C; both implement I (value receiver)
-	vA("C11", whats[1] == 6 || whats[1] == 7, "Bind requires the concrete type to implement the interface")
+	vA("C11", n == 2 && (whats[0] == 2 || whats[0] == 8 || whats[0] == 9), "Bind takes exactly two arguments, the first a pointer to an interface")
+	// with bindToUsePointer the second argument new(C) / new(*C) denotes C / *C; both implement I (value receiver);
+	// interface K implements I; nothing in the pool implements J or K
+	vA("C11", whats[0] == 2 && (whats[1] == 6 || whats[1] == 7 || whats[1] == 9), "Bind requires the bound type (concrete or interface) to implement the interface")
+	if whats[1] == 9 {
+		vCover("bind-interface-to-interface")
+	}
 	vA("C11", b.Iface != nil && b.Provided != nil && !types.Identical(b.Iface, b.Provided), "an interface is never bound to itself")
 }
 
@@ -262,6 +278,9 @@ func H_recog_expr() {
 	idx := vConc(vInt("specIndex", 0, nNames-1))
 	provSetT := types.NewNamed(types.NewTypeName(token.NoPos, e.wirePkg, "ProviderSet", nil), types.NewStruct(nil, nil), nil)
 	var theVar *types.Var
+	// with one initializer per name: either the variable's own initializer is a wire.NewSet call and the
+	// others are not, or the other way round
+	ownIsSet := vConcBool(vBool("ownInitializerIsSet"))
 	vStub("(*github.com/google/wire/internal/wire.objectCache).varDecl", func(oc *objectCache, obj *types.Var) *ast.ValueSpec {
 		spec := &ast.ValueSpec{}
 		for i := 0; i < nNames; i++ {
@@ -272,6 +291,11 @@ func H_recog_expr() {
 			spec.Names = append(spec.Names, ast.NewIdent(name))
 		}
 		for i := 0; i < nVals; i++ {
+			if nVals == nNames && (i == idx) == ownIsSet {
+				// an (empty) provider set
+				spec.Values = append(spec.Values, &ast.CallExpr{Fun: e.wireFun("NewSet", false)})
+				continue
+			}
 			// a call of an ordinary function returning provider sets (not a wire marker)
 			fn := types.NewFunc(token.NoPos, e.pkg, "makeSets", types.NewSignature(nil, nil, nil, false))
 			spec.Values = append(spec.Values, &ast.CallExpr{Fun: e.ident("makeSets", fn)})
@@ -317,10 +341,16 @@ func H_recog_expr() {
 	item, errs := oc.processExpr(e.info, "example.com/user", x, "")
 	if len(errs) > 0 {
 		checkErrs(errs)
+		vA("C10", !(kind == 0 && nVals == nNames && ownIsSet), "a variable initialised with wire.NewSet(...) is accepted whatever its position in the declaration")
 		vCover("expr-refused")
 		return
 	}
 	vCover("expr-accepted")
 	vA("C20", item != nil, "an accepted item is a Wire structure")
-	vA("C20", kind == 3 || kind == 5, "only providers, sets and marker calls are accepted")
+	vA("C20,C06", kind == 3 || kind == 5 || (kind == 0 && nVals == nNames && ownIsSet), "only providers, sets and marker calls are accepted; a variable is read through its own initializer")
+	if kind == 0 {
+		_, isSet := item.(*ProviderSet)
+		vA("C10", isSet, "a provider-set variable yields its provider set")
+		vCover("var-set-accepted")
+	}
 }
